@@ -671,11 +671,34 @@ def s8(fx, chk, ms):
                 if l in fills and fills[l] < pos[id(n)]:
                     chk.bad("S8", "%s|%s|%s" % (m.s, _name_of(names, l), n.get("m")), "collection `%s` was filled from the stream and is then edited with %s()" % (_name_of(names, l), n.get("m")), site_of(m.fr, n.get("line")))
         # shadowing: a later `let` of the same name whose value is not a read and does not mention the earlier binding's data only through a cast
+        inits = {}
+        for n in order:
+            if n.get("k") == "let" and n.get("init") is not None:
+                for nm_, lid_ in hirq.pat_bindings(n["pat"]):
+                    inits[lid_] = n["init"]
+
+        def leaves(e):
+            k_ = e.get("k")
+            if k_ == "if":
+                return leaves(e["then"]) + (leaves(e["else"]) if "else" in e else [])
+            if k_ == "match":
+                return [x for a in e["arms"] for x in leaves(a["body"])]
+            if k_ == "block":
+                return leaves(e["expr"]) if "expr" in e else []
+            return [e]
         for nm, bs in names.items():
             for i, (lid, p_, isread) in enumerate(bs):
                 if i == 0 or isread:
                     continue
                 prev = [b for b in bs[:i] if b[0] in direct or b[0] in fills]
+                if not prev:
+                    continue
+                # a shadowing binding computed from the value it shadows (`let size = u64::from(size)`) keeps the stream's
+                # data; one with a branch that ignores it (`if all_equal { Vec::new() } else { sizes }`) replaces it
+                init_ = inits.get(lid)
+                if init_ is not None and all(has_io(lf) or any(x.get("k") == "path" and x.get("res") == "local" and x.get("lid") == prev[-1][0] for x, _ in hirq.walk(lf))
+                                             or lf.get("k") in ("ret", "break", "continue") or (lf.get("k") == "call" and (lf.get("fn") or "").endswith("Result::Err")) for lf in leaves(init_)):
+                    continue
                 if prev and _scope_overlaps(order, pos, prev[-1], (lid, p_)):
                     chk.bad("S8", "%s|%s|shadowed" % (m.s, nm), "`%s` taken from the stream is shadowed by a binding that is not a read" % nm, site)
         chk.ok("S8", m.s, "%d read-bound locals, %d collections filled from reads: none rewritten" % (len(direct), len(fills)), site)
